@@ -80,6 +80,7 @@ def gen_future_program(rng: random.Random):
         acts.append([op, slot] + ins)
         return acts, slot, leaves
 
+    direct = set()      # shared plain futures some process parks on directly (one process per future)
     for k in kinds_w:
         e = rng.randrange(ents)
         segs = []
@@ -88,6 +89,13 @@ def gen_future_program(rng: random.Random):
         acts, slot, _ = fut_expr(rng.choice([0, 1, 1, 2, 3]))
         if not acts:
             slot = nf + (k - 20)   # a plain future of its own: a future may be awaited by one process only
+            free = [f for f in range(nf) if f not in direct]
+            if free and rng.random() < 0.5:
+                # … or one of the shared plain futures, which other waiters may use as an input of their
+                # any_of / all_of at the same time: the future then has a parked process AND watchers, and
+                # its resolve() must wake the one and notify the others
+                slot = rng.choice(free)
+                direct.add(slot)
         segs.append({"acts": acts, "term": ["W", slot]})
         if rng.random() < 0.3:
             segs.append({"acts": [], "term": ["W", slot]})       # the same (now resolved) future again
@@ -167,6 +175,10 @@ class C02(C01):
         "HappyModel.C01.inflight_hook_runs_at_finish",
         "HappyModel.C01.inflight_hooks_cleared",
         "HappyModel.C01.resumed_value_logged",
+        "HappyModel.C01.resolve_wakes_then_notifies",
+        "HappyModel.C01.relay_forwards",
+        "HappyModel.C01.relay_stops",
+        "HappyModel.C01.hops_by_tag",
         "HappyModel.C01.delivered_sorted",
         "HappyModel.C01.at_most_once",
         "HappyModel.C01.pop_verdict",
@@ -188,14 +200,15 @@ class C02(C01):
     }
     quick_cases = 1000
     thorough_cases = 25000
-    rule = ("C01 programs (no crash actions) plus 1–3 waiter processes that park on plain futures or on any_of/all_of trees of depth ≤3 "
+    rule = ("C01 programs (no crash actions) plus 1–3 waiter processes that park on plain futures (own ones, or shared ones that are at the "
+            "same time inputs of another waiter's combinator) or on any_of/all_of trees of depth ≤3 "
             "(some after a delay, some yielding the same future twice) and 1–4 resolver handlers (plain or generator) that resolve "
             "the plain futures, possibly twice, before / at / after the wait instant, with values of every kind (ints incl. 0, None, False, "
             "'', 0.0, empty containers, exception instances and classes used as plain values, tuples, lists: the process writes down what "
             "the yield expression gave it or that it raised); completion hooks added to a waiter's triggering event by the waiter itself "
             "while in flight and by other entities before its delivery / while it is parked or sleeping / after it finished. Non-trivial = at least one process was resumed "
             "by a future; distinct = distinct log")
-    trusted_base = C01.trusted_base + ["each future slot is bound at most once per run (no rebinding), each future is awaited by at most one process at a time"]
+    trusted_base = C01.trusted_base + ["each future slot is bound at most once per run (no rebinding), at most one process parks directly on a future at a time (the same future may be an input of other processes' combinators)"]
     assumptions = C01.assumptions + [
         "the inputs of a generated any_of never share a plain future, so one resolve() call settles at most one of them; "
         "which input counts as 'first' inside a single callback cascade is not fixed by the property text and is not judged"]
